@@ -779,3 +779,52 @@ EXPECTED_CARRIERS = {'attr#0:p@dict': (False, 'r'),
  'xmlattr#0:p@obj': (True, 'e'),
  'xmlattr#0:p@strsub': (True, 'e'),
  'xmlattr#0:p@tuple': (True, 'e')}
+
+
+# ------------------------------------------------------------------ built-in tests
+# name -> (value kind, extra args); S = taintable string.  A test missing here is a broken tie.
+CMP = ["!=", "<", "<=", "==", ">", ">=", "eq", "equalto", "ge", "greaterthan", "gt", "le", "lessthan", "lt", "ne", "sameas"]
+TEST_SPECS = {n: (S, [S]) for n in CMP}
+TEST_SPECS.update({n: (S, []) for n in ["boolean", "callable", "defined", "escaped", "false", "float", "integer", "iterable", "lower",
+                                        "mapping", "none", "number", "sequence", "string", "true", "undefined", "upper"]})
+TEST_SPECS.update({"divisibleby": (12, [3]), "even": (4, []), "odd": (3, []), "in": (S, [S]), "filter": ("upper", []), "test": ("odd", [])})
+
+
+def test_cases(jinja2):
+    from jinja2.tests import TESTS
+    for name in sorted(TESTS):
+        spec = TEST_SPECS.get(name)
+        if spec is None:
+            yield name, None, (), None
+            continue
+        value, args = spec
+        n = (1 if value == S else 0) + sum(1 for a in args if a == S)
+        for taints in itertools.product((False, True), repeat=n):
+            yield name, spec, taints, None
+        if n:
+            for c in CARRIERS:
+                yield name, spec, (False,) * n, c
+
+
+def observe_test(jinja2, name, spec, taints, carrier, env, tctx):
+    """a test answers with a bool: nothing of its arguments can reach the output"""
+    from markupsafe import Markup
+    value, args = spec
+    it = iter(taints)
+    idx = [0]
+
+    def mk():
+        t = next(it)
+        i = idx[0]
+        idx[0] += 1
+        if t:
+            return Markup(SAFE[i])
+        s = "x " + PAY[i]
+        return carry(carrier, s) if carrier else s
+    v = mk() if value == S else value
+    a = [mk() if x == S else x for x in args]
+    try:
+        r = env.call_test(name, v, a, context=tctx, eval_ctx=tctx.eval_ctx)
+    except Exception as e:
+        return ("error", type(e).__name__)
+    return ("bool", bool(r)) if isinstance(r, bool) else ("other", type(r).__name__ + ":" + str(r)[:60])
